@@ -129,6 +129,27 @@ def d1_immutability(chk, prog, eff):
     chk.rule("arg-mutation", "mut[f] (parameters whose entry object may be mutated, through any callee) must be empty for every "
              "pipeline entry point and every array method that is not an in-place mutator by contract; exceptions: the "
              "chr_x/chr_y label cache in meta, and by_arm's value-preserving astype(str)")
+    # the effect analysis takes `.copy()` as a fresh object: that premise is checked on the repository's own copy methods
+    from ..abstools import make_ga, Term, same
+    tbc = Table(chk, "arg-mutation", "GenomicArray.copy / CopyNumArray.copy return an independent table (a store into the copy leaves the original alone; metadata not shared)", "skgenome/gary.py", "skgenome.gary.GenomicArray.copy")
+    for cls in ("GenomicArray", "CopyNumArray", "VariantArray"):
+        if prog.find_method(cls, "copy") is None:
+            continue
+        W.reset()
+        g = make_ga(cls, [dict(chromosome="chr1", start=0, end=10, gene="g", log2=Term.sym("v0")), dict(chromosome="chr1", start=10, end=20, gene="h", log2=Term.sym("v1"))], {"sample_id": "S"}, exact=True)
+        it = Interp(prog)
+
+        def probe():
+            c = it.run_method(g, "copy", [])
+            it.lib.store_subscript(it, c, "log2", 0)
+            c.meta["sample_id"] = "changed"
+            return c
+        c = tbc.guard(probe, cls)
+        if c is None:
+            continue
+        untouched = same(g.data.cols["log2"].v[0], Term.sym("v0")) and same(g.data.cols["log2"].v[1], Term.sym("v1")) and g.meta.get("sample_id") == "S"
+        tbc.cell(c is not g and c.data is not g.data and untouched and c.cls == cls, dict(cls=cls, same_object=c is g, same_table=c.data is g.data, original_untouched=untouched))
+    tbc.done("copy() hands back the array itself or a wrapper around the same table: every 'works on a copy' function then writes into its caller's array")
     entries = entry_points(prog)
     chk.floor("C10-D1 entry points", len(entries), 140)
     atomic = _atomic(prog)
@@ -482,6 +503,9 @@ def run(chk):
 
 
 MUTANTS = [
+    dict(name="GenomicArray.copy wraps the same table", file="skgenome/gary.py", old="        return self.as_dataframe(self.data.copy())", new="        return self.as_dataframe(self.data)"),
+    # (GenomicArray.__init__ copies the metadata mapping itself, so passing it uncopied changes nothing)
+    dict(name="twin: as_dataframe passes the metadata dict uncopied", expect="silent", file="skgenome/gary.py", old="        return self.__class__(dframe, self.meta.copy())", new="        return self.__class__(dframe, self.meta)"),
     dict(name="backup name not advanced past existing backups", file="cnvlib/core.py", old="        while os.path.isfile(bak_fname):\n            cnt += 1\n            bak_fname = f\"{fname}.{cnt}\"\n", new=""),
     dict(name="twin: backup search as a for loop over itertools.count", expect="silent", edits=[("cnvlib/core.py", """        cnt = 1
         bak_fname = f"{fname}.{cnt}"
